@@ -288,7 +288,15 @@ func (a *appGenerator) makeCodegenApp() (GenApp, error) {
 	log.Printf("planning definitions (found: %d)", len(a.Models))
 
 	genModels := make(GenDefinitions, 0, len(a.Models))
-	for mn, m := range a.Models {
+	// planning a model may add definitions to the document the next ones are planned from (anonymous
+	// structs lifted as definitions): plan in a stable order
+	modelNames := make([]string, 0, len(a.Models))
+	for mn := range a.Models {
+		modelNames = append(modelNames, mn)
+	}
+	sort.Strings(modelNames)
+	for _, mn := range modelNames {
+		m := a.Models[mn]
 		model, err := makeGenDefinition(
 			mn,
 			a.ModelsPackage,
